@@ -291,6 +291,10 @@ def run_cmd(world, cmd, args, stdin=b'', plan=None, cwd=None, env=None,
             and not plan.get('partition_order'):
         plan['partition_order'] = [world.abs(m) for m in
                                    world.desc['partition_order_rel']]
+    if getattr(world, 'desc', None) and world.desc.get('fstypes_rel') \
+            and not plan.get('fstypes'):
+        plan['fstypes'] = dict((world.abs(m), t) for m, t in
+                               world.desc['fstypes_rel'].items())
     if getattr(world, 'desc', None) and world.desc.get('umask') is not None \
             and plan.get('umask') is None:
         plan['umask'] = world.desc['umask']
@@ -464,6 +468,10 @@ def run_cold(world, cmd, args, stdin=b'', plan=None, cwd=None, env=None,
             and not plan.get('partition_order'):
         plan['partition_order'] = [world.abs(m) for m in
                                    world.desc['partition_order_rel']]
+    if getattr(world, 'desc', None) and world.desc.get('fstypes_rel') \
+            and not plan.get('fstypes'):
+        plan['fstypes'] = dict((world.abs(m), t) for m, t in
+                               world.desc['fstypes_rel'].items())
     if getattr(world, 'desc', None) and world.desc.get('umask') is not None \
             and plan.get('umask') is None:
         plan['umask'] = world.desc['umask']
